@@ -650,7 +650,16 @@ func StepString(s Step) string {
 // describeAll merges what the engines deciding a property say about it. When they work at
 // different levels the weaker one (exploration) is what the check as a whole claims.
 func describeAll(prop string) PropInfo {
-	names := append([]string{}, PropEngines[prop]...)
+	var names []string
+	for _, n := range PropEngines[prop] { // (an engine may be listed several times: its share of the runs)
+		dup := false
+		for _, m := range names {
+			dup = dup || m == n
+		}
+		if !dup {
+			names = append(names, n)
+		}
+	}
 	sort.Strings(names)
 	var out PropInfo
 	uniq := func(dst []string, src []string) []string {
